@@ -19,11 +19,19 @@ var (
 // It caches analysis results for performance.
 type Analyzer struct {
 	mu    sync.RWMutex
-	cache map[uintptr]*ConstructorInfo
+	cache map[analysisKey]*ConstructorInfo
 
 	// Invoker cache for reusing ConstructorInvoker instances
 	invokerMu    sync.RWMutex
 	invokerCache map[uintptr]*ConstructorInvoker
+}
+
+// analysisKey identifies a cached analysis. Code pointers alone are not unique:
+// closures created from the same literal, method values and reflect.MakeFunc
+// functions share them, so the (signature) type is part of the key.
+type analysisKey struct {
+	ptr uintptr
+	typ reflect.Type
 }
 
 // ConstructorInfo contains analyzed information about a constructor function or instance.
@@ -117,7 +125,7 @@ type ParamField struct {
 // New creates a new Analyzer.
 func New() *Analyzer {
 	return &Analyzer{
-		cache:        make(map[uintptr]*ConstructorInfo),
+		cache:        make(map[analysisKey]*ConstructorInfo),
 		invokerCache: make(map[uintptr]*ConstructorInvoker),
 	}
 }
@@ -138,18 +146,9 @@ func (a *Analyzer) Analyze(constructor any) (*ConstructorInfo, error) {
 	typ := reflect.TypeOf(constructor)
 
 	// This ensures different functions with the same signature are cached separately
-	var cacheKey uintptr
-	switch {
-	case typ.Kind() == reflect.Func && val.CanAddr():
-		// For functions, use the function pointer as the cache key
-		cacheKey = val.Pointer()
-	case typ.Kind() == reflect.Func:
-		// For non-addressable functions, use the pointer from Value
-		cacheKey = val.Pointer()
-	default:
-		// For non-functions, we can still use the type's address as a fallback
-		// Note: This won't differentiate between different instances of the same type
-		cacheKey = reflect.ValueOf(typ).Pointer()
+	cacheKey := analysisKey{typ: typ}
+	if typ.Kind() == reflect.Func {
+		cacheKey.ptr = val.Pointer()
 	}
 
 	// Check cache first
@@ -539,7 +538,7 @@ func (a *Analyzer) getSliceElemType(t reflect.Type) reflect.Type {
 }
 
 // cacheAndReturn caches the analysis result and returns it.
-func (a *Analyzer) cacheAndReturn(key uintptr, info *ConstructorInfo) (*ConstructorInfo, error) {
+func (a *Analyzer) cacheAndReturn(key analysisKey, info *ConstructorInfo) (*ConstructorInfo, error) {
 	a.mu.Lock()
 	a.cache[key] = info
 	a.mu.Unlock()
@@ -550,7 +549,7 @@ func (a *Analyzer) cacheAndReturn(key uintptr, info *ConstructorInfo) (*Construc
 // Clear clears the analysis cache.
 func (a *Analyzer) Clear() {
 	a.mu.Lock()
-	a.cache = make(map[uintptr]*ConstructorInfo)
+	a.cache = make(map[analysisKey]*ConstructorInfo)
 	a.mu.Unlock()
 }
 
